@@ -75,10 +75,10 @@ RECURSIVE InsertAll(_, _, _)
 InsertAll(d, xs, i) ==
   IF i > Len(xs) THEN d ELSE InsertAll(TLCEval(OrInsert(d, xs[i])), xs, i + 1)
 
-\* scalar_map(hades_optimization)
-BaseDict(hades) ==
-  IF hades THEN InsertAll(<<>>, BaseList, 1)
-  ELSE InsertAll(<<>>, SubSeq(BaseList, 1, 3), 1)
+\* scalar_map(hades_optimization); zero-arity so that TLC evaluates each once
+BaseDictHades == InsertAll(<<>>, BaseList, 1)
+BasePlainDict == InsertAll(<<>>, SubSeq(BaseList, 1, 3), 1)
+BaseDict(hades) == IF hades THEN BaseDictHades ELSE BasePlainDict
 
 --------------------------------------------------------------------------
 (* sorting a sequence of naturals (public_inputs.sort()) *)
@@ -118,9 +118,8 @@ RealDecl(p) == [pis |-> Len(p.pis), scalars |-> Len(p.scalars),
    (FALSE only in the model's self-test). The two `into_iter().for_each(|(k, i)|
    out[i] = k)` loops that turn the dictionaries back into vectors write every
    slot exactly once (DictIsBijection), hence are order-independent. *)
-PayloadOf(c, hades, piOrder, sortPI) ==
-  LET base == TLCEval(BaseDict(hades))
-      r    == TLCEval(CompressRows(c.rows, 1, base, <<>>, <<>>))
+PayloadOfB(c, base, hades, piOrder, sortPI) ==     \* base = BaseDict(hades)
+  LET r    == TLCEval(CompressRows(c.rows, 1, base, <<>>, <<>>))
       pis  == IF sortPI THEN SortNat(piOrder) ELSE piOrder
       scal == SubSeq(r.sd, Len(base) + 1, Len(r.sd))       \* split_off(base)
   IN [hades   |-> hades,
@@ -132,6 +131,9 @@ PayloadOf(c, hades, piOrder, sortPI) ==
       extra   |-> 0,
       decl    |-> [pis |-> Len(pis), scalars |-> Len(scal),
                    polys |-> Len(r.pd), cons |-> Len(r.cons)]]
+
+PayloadOf(c, hades, piOrder, sortPI) ==
+  PayloadOfB(c, TLCEval(BaseDict(hades)), hades, piOrder, sortPI)
 
 Container(p) == [stream |-> "ok", payload |-> p, tail |-> 0]
 
@@ -206,7 +208,7 @@ Rebuild(p, scal, i, wm, pi, acc) ==
    inflated = bytes of inflater output (the output vector never grows beyond
    the limit), elems = collection elements unpacked, wit = witnesses
    allocated by the reconstruction *)
-Decompress(cont, max) ==
+DecompressB(cont, max, baseHades, basePlain) ==   \* the two BaseDict values
   LET limit == PackedSizeLimit(max)
       p     == cont.payload
       psize == PackedSize(p)
@@ -231,7 +233,7 @@ Decompress(cont, max) ==
               w2 == [w1 EXCEPT !.elems = read]
           IN IF badPis \/ badScal \/ badPoly \/ badCons THEN Err(Invalid, w2)
              ELSE IF p.extra # 0 THEN Err(Invalid, w2)       \* !reader.is_empty()
-             ELSE LET base == TLCEval(BaseDict(p.hades))
+             ELSE LET base == IF p.hades THEN baseHades ELSE basePlain
                   IN IF ~IndicesValid(p, Len(base)) THEN Err(Invalid, w2)
                      ELSE IF \E i \in 1..Len(p.scalars) : ~Canonical(p.scalars[i])
                        THEN Err("BlsScalarMalformed", w2)
@@ -240,11 +242,23 @@ Decompress(cont, max) ==
                           IN [ok |-> TRUE, composer |-> c,
                               work |-> [w2 EXCEPT !.wit = c.nw]]
 
+Decompress(cont, max) == DecompressB(cont, max, BaseDictHades, BasePlainDict)
+
 \* what is materialised never exceeds this function of the capacity
 WorkBounded(work, max) ==
   /\ work.inflated <= PackedSizeLimit(max)
   /\ work.elems <= max * (3 + SelectorsPerPolynomial)
   /\ work.wit <= 4 * max
+
+(* bytes of heap the decoder may hold at once, as a function of the capacity
+   only: the inflater's output vector grows by doubling up to the limit (old
+   and new block alive during a move), every unpacked collection is a vector
+   grown the same way (8-byte indexes, 32-byte scalars, 11 resp. 5 indexes
+   per polynomial / constraint), plus a constant for the inflater state and
+   the built-in table *)
+BytesPerConstraintUnpacked == 8 + SelectorsPerPolynomial * 32 + 88 + 40
+AllocBound(max, slack) ==
+  3 * PackedSizeLimit(max) + 3 * BytesPerConstraintUnpacked * max + slack
 
 --------------------------------------------------------------------------
 (* the description that determines the keys (Compiler::preprocess): the
@@ -256,7 +270,22 @@ WorkBounded(work, max) ==
 
 Labels(c) == [p \in 1..(4 * Len(c.rows)) |-> c.rows[((p - 1) \div 4) + 1].w[((p - 1) % 4) + 1]]
 
+(* one backward pass: nxt[label + 1] = the nearest later wire of that label
+   (0 if none); after the pass nxt holds the FIRST wire of every label *)
+RECURSIVE SigmaBack(_, _, _, _)
+SigmaBack(lab, p, nxt, acc) ==
+  IF p = 0 THEN [later |-> acc, first |-> nxt]
+  ELSE LET L == lab[p] + 1
+       IN SigmaBack(lab, p - 1, TLCEval([nxt EXCEPT ![L] = p]), TLCEval(<<nxt[L]>> \o acc))
+
 Sigma(c) ==
+  LET lab == TLCEval(Labels(c))
+      n   == Len(lab)
+      r   == TLCEval(SigmaBack(lab, n, [k \in 1..c.nw |-> 0], <<>>))
+  IN [p \in 1..n |-> IF r.later[p] # 0 THEN r.later[p] ELSE r.first[lab[p] + 1]]
+
+\* the definition the pass implements (used by CompressMC!SigmaIsNextInClass)
+SigmaDef(c) ==
   LET lab == TLCEval(Labels(c))
       n   == Len(lab)
       NextSame(p) ==
